@@ -562,4 +562,62 @@ def refinesAll : List (String × Option Ty) → List (String × Option Ty) → B
   | (k, t) :: r, (k', t') :: std => k == k' && optLe t t' && refinesAll r std
   | _, _ => false
 
+/-! ## The constructors of the operators with a body: how the body's formal arguments are typed
+
+`loop(...)`, `scan(...)`, `sequence_map(...)`, `if_(...)` (module text of `ai.onnx` v17, repeated in
+the later modules) call `subgraph(types, body)` with a list of types computed from the operands
+*before* the node exists; `out_variadic` is the number of results the body returned. Tied to the
+code by correspondence on every generated Loop / Scan / SequenceMap / If call: the model's list is
+compared with the types of `body.requested_arguments` of the real node. -/
+
+/-- Python `xs[:i]` -/
+def pyTake {α} (xs : List α) (i : Int) : List α :=
+  if i < 0 then xs.take (xs.length - (-i).toNat) else xs.take i.toNat
+
+/-- Python `xs[i:]` -/
+def pyDrop {α} (xs : List α) (i : Int) : List α :=
+  if i < 0 then xs.drop (xs.length - (-i).toNat) else xs.drop i.toNat
+
+/-- `loop`: `[Tensor(int64, (1,)), Tensor(bool, (1,))] + [var.unwrap_type() for var in v_initial]` -/
+def loopFormals (vInitial : List Ty) : List Ty :=
+  [.tensor 7 (some [.const 1]), .tensor 9 (some [.const 1])] ++ vInitial
+
+/-- what the ONNX specification gives the body of a Loop: a scalar iteration number and condition -/
+def loopFormalsSpec (vInitial : List Ty) : List Ty :=
+  [.tensor 7 (some []), .tensor 9 (some [])] ++ vInitial
+
+/-- `Tensor(t.dtype, (lambda x: x[1:] if x is not None else None)(t.shape))`; `unwrap_tensor` raises
+    for a non-tensor (`none`) -/
+def scanSliceFormal : Ty → Option Ty
+  | .tensor e sh => some (.tensor e (sh.map (fun ds => ds.drop 1)))
+  | _ => none
+
+def stateFormal : Ty → Option Ty
+  | .tensor e sh => some (.tensor e sh)
+  | _ => none
+
+def allSome {α} : List (Option α) → Option (List α)
+  | [] => some []
+  | none :: _ => none
+  | some x :: xs => (allSome xs).map (x :: ·)
+
+/-- `scan`: the first `len - num_scan_inputs` operands (Python slice semantics) unchanged, the rest
+    with their first axis dropped - whatever `scan_input_axes` says -/
+def scanFormals (inputs : List Ty) (numScan : Int) : Option (List Ty) :=
+  let k : Int := (inputs.length : Int) - numScan
+  allSome ((pyTake inputs k).map stateFormal ++ (pyDrop inputs k).map scanSliceFormal)
+
+/-- the slice ONNX specifies for a scan input scanned along `axis` (normalised, in range): that axis removed -/
+def scanSliceSpec (t : Ty) (axis : Nat) : Option Ty :=
+  match t with
+  | .tensor e sh => some (.tensor e (sh.map (fun ds => ds.eraseIdx axis)))
+  | _ => none
+
+/-- `sequence_map`: the element type of the sequence operand (`.elem_type` of a non-sequence raises),
+    additional operands: element type if a sequence, else the type itself -/
+def seqMapFormals (inputSeq : Ty) (additional : List Ty) : Option (List Ty) :=
+  match inputSeq with
+  | .seq t => some (t :: additional.map (fun a => match a with | .seq t' => t' | a' => a'))
+  | _ => none
+
 end Sing
